@@ -537,7 +537,7 @@ def oracle_cached(c, obs):
 WHAT = {
     "fill-overlaps-write": "CachedStore.get miss-fill overlapping a put/delete of the same key installs the old backing value over the newer one",
     "invalidate-dirty": "CachedStore.invalidate/invalidate_all drops a dirty write-back entry without writing it to the backing store",
-    "flush-overlaps-put": "CachedStore.flush writes the value captured before its latency and then clears the dirty mark of a key that was rewritten meanwhile",
+    "flush-overlaps-put": "CachedStore.flush writes the value captured before its latency (and then clears the dirty mark) although the key was rewritten or deleted meanwhile",
 }
 
 
@@ -570,8 +570,8 @@ def classify_stale_read(c, obs, info, k, g):
                 continue
             fi = info[foid]
             for woid, wi in wr:
-                if ops[woid][1] == "put" and fi["start"] < wi["start"] < fi["ret"] and fi["start"] < g["ret"]:
-                    return "flush-overlaps-put"
+                if fi["start"] < wi["start"] < fi["ret"] and fi["start"] < g["ret"]:
+                    return "flush-overlaps-put"          # put or delete started while the flush write was in flight
     return "stale-read"
 
 
@@ -817,7 +817,9 @@ def oracle_sttl(c, obs):
             if entry is None or first["now"] - entry[2] >= hard:
                 fails.append(dict(clause="soft TTL: never serves an entry older than its hard TTL", path="hit", get_op=oid,
                                   age=None if entry is None else first["now"] - entry[2], hard=hard))
-        elif first["kind"] == "yield" and o[2] in pre["refreshing"] and g["val"] is not None:
+        elif first["kind"] == "yield" and o[2] in pre["refreshing"] and g["val"] is not None and len(g["segs"]) == 2:
+            # coalesced with a refresh and answered from the cache when it resumed (three segments = it fell
+            # through to a blocking fetch of its own: the value comes from the backing store)
             last = log[g["ret"]]
             pre2 = log[g["ret"] - 1]["snap"]
             entry2 = {x[0]: x for x in pre2["cache"]}.get(o[2])
